@@ -51,6 +51,7 @@ TYS = {
     "vec_deep": ("Vec<Gen<Deep>>", ["vec![Gen { g: Deep::v1(), o: Some(Deep::default()) }]", "vec![]"], True, False, False),
     "tree": ("Tree", ["Tree::v1()", "Tree::default()"], True, True, False),
     "box_tage": ("Box<TagE>", ["Box::new(TagE::A { a: 1 })", "Box::new(TagE::B)"], False, True, False),
+    "box_opt_i32": ("Box<Option<i32>>", ["Box::new(Some(1))", "Box::new(None)"], False, False, False),
     "oneu": ("OneU", ["OneU::Only(TagE::A { a: 1 })", "OneU::Only(TagE::B)"], False, True, False),
     "opt_tree": ("Option<Box<Tree>>", ["Some(Box::new(Tree::v1()))", "None"], True, False, True),
 }
